@@ -216,7 +216,23 @@ class AndSplit(ast.NodeTransformer):
         return node
 
 
-TRANSFORMS = ["ret_tmp", "if_swap", "cmp_flip", "rename", "kwargs", "assign_tmp",
+class StripAnn(ast.NodeTransformer):
+    """Remove parameter / return annotations of functions (not class-level fields)."""
+
+    def visit_FunctionDef(self, node):
+        self.generic_visit(node)
+        a = node.args
+        for x in a.posonlyargs + a.args + a.kwonlyargs:
+            x.annotation = None
+        if a.vararg:
+            a.vararg.annotation = None
+        if a.kwarg:
+            a.kwarg.annotation = None
+        node.returns = None
+        return node
+
+
+TRANSFORMS = ["strip_ann", "ret_tmp", "if_swap", "cmp_flip", "rename", "kwargs", "assign_tmp",
               "unpack_index", "and_split"]
 
 
@@ -225,7 +241,7 @@ def apply(name, repo, root):
         tree = ast.parse(mi.source)
         t = {"ret_tmp": RetTmp, "if_swap": IfSwap, "cmp_flip": CmpFlip, "rename": Rename,
              "assign_tmp": AssignTmp, "unpack_index": UnpackIndex,
-             "and_split": AndSplit}.get(name)
+             "and_split": AndSplit, "strip_ann": StripAnn}.get(name)
         tree = (Kwargs(repo, mi) if name == "kwargs" else t()).visit(tree)
         ast.fix_missing_locations(tree)
         out = ast.unparse(tree)
